@@ -16,7 +16,7 @@ From SV Require Import Lib.Base Gen.Consts.
 From SV Require Import Model.Seq32 Model.Assembler Model.TcpBuf Model.TcpTypes Model.Tcp Model.TcpNet.
 From SV Require Import Proofs.TcpSendBase Proofs.TcpLiveBase Proofs.TcpLiveProofs Proofs.TcpLiveMore Proofs.TcpLiveProgress.
 From SV Require Import Proofs.TcpNetBase.
-From SV Require Import Proofs.TcpProgressBase Proofs.TcpProgressFrame Proofs.TcpProgressRecv Proofs.TcpProgressSend Proofs.TcpProgressNet Proofs.TcpProgressData Proofs.TcpProgressAck Proofs.TcpProgressAll Proofs.TcpProgressExample Proofs.TcpProgressWitness.
+From SV Require Import Proofs.TcpProgressBase Proofs.TcpProgressFrame Proofs.TcpProgressRecv Proofs.TcpProgressSend Proofs.TcpProgressNet Proofs.TcpProgressData Proofs.TcpProgressAck Proofs.TcpProgressAll Proofs.TcpProgressZwp Proofs.TcpProgressExample Proofs.TcpProgressWitness.
 
 (* ---------------------------------------------------------------------------------------------
    1. the fairness hypothesis is satisfiable, and what the model does on a fair run
@@ -382,3 +382,51 @@ Theorem C02live_composition_applies :
                          5 <= read_off (net_get st1 SB).
 Proof. exact composition_applies. Qed.
 Print Assumptions C02live_composition_applies.
+
+(* ---------------------------------------------------------------------------------------------
+   6. STEP 4 (zero window): PARTIAL - the socket-level reactions only.  Missing: their composition
+   over fair schedules in the regime "remote window believed closed" (window-update path: reader
+   reads -> update due at once -> delivered -> learned; probe path: probe timer <= RTTE_MAX_RTO ->
+   one octet from SND.UNA -> answered by an ACK carrying the current window -> learned).
+   --------------------------------------------------------------------------------------------- *)
+(* reader side: once window_to_update holds, poll_at is Now *)
+Theorem C02live_zero_window_update_due_partial : forall cx s,
+  s_tuple s <> None -> tcp_window_to_update s = Ok true ->
+  match tcp_poll_at cx s with Ok Tcp.PNow => True | Ok _ => False | _ => True end.
+Proof. exact window_update_due. Qed.
+Print Assumptions C02live_zero_window_update_due_partial.
+
+(* sender side: an empty segment at RCV.NXT carrying a window w > 0 is accepted and the learned remote
+   window becomes w << scale > 0 *)
+Theorem C02live_zero_window_update_learned_partial : forall cx s ip r s' reply tags d W,
+  ctx_ok cx -> seg_ok r -> tcp_live_inv s -> s_state s = Established ->
+  r_control r = CNone -> r_payload r = [] ->
+  r_seq_number r = tcp_window_start s ->
+  tcp_window_end s = seq_norm (tcp_window_start s + W) -> 0 <= W <= 2 ^ 30 ->
+  r_ack_number r = Some (sq (s_local_seq_no s + d)) ->
+  0 <= d <= rb_len (s_tx_buffer s) -> rb_len (s_tx_buffer s) < 2 ^ 30 ->
+  0 < r_window_len r ->
+  tcp_process cx s ip r = Ok (s', reply, tags) ->
+  s_remote_win_len s' = shl (r_window_len r) (win_scale_of s r) /\ 0 < s_remote_win_len s' /\
+  rb_len (s_tx_buffer s') = rb_len (s_tx_buffer s) - d.
+Proof. exact window_update_learned. Qed.
+Print Assumptions C02live_zero_window_update_learned_partial.
+
+(* sender side: probe timer due, window believed closed, nothing in flight: exactly one octet from
+   SND.UNA is sent and the probe timer re-armed within (now, now + RTTE_MAX_RTO] *)
+Theorem C02live_zero_window_probe_sent_partial : forall cx s e d0 s' res tags,
+  tcp_live_inv s -> s_state s = Established ->
+  s_timer s = TZeroWindowProbe e d0 -> e <= cx_now cx -> 0 < d0 ->
+  s_remote_win_len s = 0 -> 0 < rb_len (s_tx_buffer s) ->
+  s_remote_last_seq s = s_local_seq_no s ->
+  s_timeout s = None ->
+  (forall t, s_tuple s = Some t -> tu_local_addr t = cx_addr cx) ->
+  mss_ok cx s ->
+  tcp_dispatch cx s true = Ok (s', res, tags) ->
+  exists ip repr,
+    res = DSent (ip, repr) /\
+    r_seq_number repr = s_local_seq_no s /\ l_len (r_payload repr) = 1 /\
+    (exists e' d', s_timer s' = TZeroWindowProbe e' d' /\ cx_now cx < e' <= cx_now cx + max_rto_us) /\
+    s_local_seq_no s' = s_local_seq_no s /\ s_state s' = s_state s.
+Proof. exact zero_window_probe_sent. Qed.
+Print Assumptions C02live_zero_window_probe_sent_partial.
